@@ -63,6 +63,9 @@ def cases(tier, seed):
             if ords == (1, 1, 1) and st == '3h':
                 continue
         out.append(dict(model=model, alpha=alpha, ords=list(ords), state=st, rule=rule, grid=grid, cores=cores, imp=imp, seed=seed))
+    # prescribed end rotation / shortening: the tangent must follow the load level on a re-used object
+    for model, alpha, presc in itertools.product([m for m in nl_models() if m not in KERNEL_FINDINGS], [0., 20.], ['twist', 'twist+shortening']):
+        out.append(dict(model=model, alpha=alpha, ords=[2, 1, 2], state='h', rule='trapz2d', grid='g24', cores=1, imp=0, presc=presc, seed=seed))
     return out
 
 
@@ -71,12 +74,17 @@ def build(case, cores=None):
     n = 24 if case['grid'] == 'g24' else 40
     cfg = dict(model=case['model'], alphadeg=case['alpha'], m1=m1, m2=m2, n2=n2, s=40, nx=n, nt=n, ni_method=case['rule'],
                ni_num_cores=cores or case['cores'], stack=[30., -60., 17.3] if 'iso' not in case['model'] else [])
+    if case.get('presc'):
+        cfg.update(pdT=True, thetaTdeg=0.15)
+        if 'shortening' in case['presc']:
+            cfg.update(pdC=True, uTM=1.0e-4)
     cc = rs.shell_of(cfg)
     if case['imp']:
         # one term of the half-cosine imperfection series
-        cc.m0, cc.n0, cc.funcnum = 2, 2, 2
-        c0 = np.zeros(2 * 2 * 2)
+        cc.m0, cc.n0, cc.funcnum = 2, 3, 2          # different axial / circumferential term counts
+        c0 = np.zeros(2 * 2 * 3)
         c0[3] = 0.3e-3
+        c0[8] = -0.2e-3
         cc.c0 = c0
     return cc
 
@@ -91,42 +99,44 @@ def check_case(case):
     g = np.array([seed_eps(seed, 3000 + i) for i in range(n)])
     amp = dict(zero=0.0, tiny=1e-8 * h, h=h, **{'3h': 3 * h})[case['state']]
     c = amp * g
-    cin = c.copy()
-    f0 = np.asarray(cc.calc_fint(cin, silent=True), dtype=float)
-    kT = cc.calc_kT(cin, silent=True).toarray()
-    execs = 2
-    if not np.array_equal(cin, c):
-        fails.append(fail('calc_fint/calc_kT modified the state vector', sig=None, case=case))
-    sc = np.abs(kT).max()
-    if np.abs(kT - kT.T).max() > 1e-11 * sc:
-        fails.append(fail('tangent stiffness not symmetric', sig=None, case=case, asym=float(np.abs(kT - kT.T).max() / sc)))
-    if case['state'] == 'zero' and not case['imp']:
-        if np.abs(f0).max() > 1e-12 * np.abs(k0uu).max() * h:
-            fails.append(fail('internal force of the undeformed perfect shell is not zero', sig=None, case=case, fmax=float(np.abs(f0).max())))
-        if np.abs(kT - k0uu).max() > 1e-11 * sc:
-            fails.append(fail('tangent of the undeformed perfect shell is not the linear stiffness', sig=None, case=case))
-    if case['state'] == 'tiny' and not case['imp']:
-        lin = k0uu.dot(c)
-        if np.abs(f0 - lin).max() > 1e-6 * (np.abs(k0uu).dot(np.abs(c)).max() + 1e-300):
-            fails.append(fail('internal force for vanishing amplitudes is not the linear stiffness times the amplitudes', sig=None, case=case))
-    if case['state'] in ('h', '3h'):
-        nl = np.abs(kT - k0uu).max()
-        step = 1e-6 * np.abs(c).max()
-        worst = 0.0
-        for k in range(n):
-            e = np.zeros(n); e[k] = step
-            col = (np.asarray(cc.calc_fint(c + e, silent=True), dtype=float) - np.asarray(cc.calc_fint(c - e, silent=True), dtype=float)) / (2 * step)
-            execs += 2
-            err = np.abs(col - kT[:, k]).max()
-            worst = max(worst, err / (1e-4 * nl + 1e-9 * sc))
-            if err > 1e-4 * nl + 1e-9 * sc:
-                sig = KERNEL_FINDINGS.get(case['model'])
-                if sig and not layer_matches_kernels(cc, c, kT, f0):
-                    sig = None
-                fails.append(fail('tangent stiffness is not the derivative of the internal force' +
-                                  (' (explained by the non-linear kernels of this model: Python layer verified against direct kernel calls)' if sig else ''), sig=sig, case=case, direction=k, err=float(err),
-                                  nonlinear_part=float(nl), kT_scale=float(sc)))
-                break
+    incs = [1.0, 0.4] if case.get('presc') else [1.0]
+    execs = 0
+    for inc in incs:
+        cin = c.copy()
+        f0 = np.asarray(cc.calc_fint(cin, inc=inc, silent=True), dtype=float)
+        kT = cc.calc_kT(cin, inc=inc, silent=True).toarray()
+        execs += 2
+        if not np.array_equal(cin, c):
+            fails.append(fail('calc_fint/calc_kT modified the state vector', sig=None, case=case))
+        sc = np.abs(kT).max()
+        if np.abs(kT - kT.T).max() > 1e-11 * sc:
+            fails.append(fail('tangent stiffness not symmetric', sig=None, case=case, asym=float(np.abs(kT - kT.T).max() / sc)))
+        if case['state'] == 'zero' and not case['imp'] and not case.get('presc'):
+            if np.abs(f0).max() > 1e-12 * np.abs(k0uu).max() * h:
+                fails.append(fail('internal force of the undeformed perfect shell is not zero', sig=None, case=case, fmax=float(np.abs(f0).max())))
+            if np.abs(kT - k0uu).max() > 1e-11 * sc:
+                fails.append(fail('tangent of the undeformed perfect shell is not the linear stiffness', sig=None, case=case))
+        if case['state'] == 'tiny' and not case['imp'] and not case.get('presc'):
+            lin = k0uu.dot(c)
+            if np.abs(f0 - lin).max() > 1e-6 * (np.abs(k0uu).dot(np.abs(c)).max() + 1e-300):
+                fails.append(fail('internal force for vanishing amplitudes is not the linear stiffness times the amplitudes', sig=None, case=case))
+        if case['state'] in ('h', '3h'):
+            nl = np.abs(kT - k0uu).max()
+            step = 1e-6 * np.abs(c).max()
+            for k in range(n):
+                e = np.zeros(n); e[k] = step
+                col = (np.asarray(cc.calc_fint(c + e, inc=inc, silent=True), dtype=float) -
+                       np.asarray(cc.calc_fint(c - e, inc=inc, silent=True), dtype=float)) / (2 * step)
+                execs += 2
+                err = np.abs(col - kT[:, k]).max()
+                if err > 1e-4 * nl + 1e-9 * sc:
+                    sig = KERNEL_FINDINGS.get(case['model'])
+                    if sig and not layer_matches_kernels(cc, c, kT, f0):
+                        sig = None
+                    fails.append(fail('tangent stiffness is not the derivative of the internal force' +
+                                      (' (explained by the non-linear kernels of this model: Python layer verified against direct kernel calls)' if sig else ''),
+                                      sig=sig, case=case, direction=k, load_factor=inc, err=float(err), nonlinear_part=float(nl), kT_scale=float(sc)))
+                    break
     # thread-count edge
     if case['cores'] != 1:
         c1 = build(case, cores=1)
